@@ -2,7 +2,11 @@
 
 Domain: every cipher x MAC pair paramiko offers x compression {none, zlib, zlib@openssh.com
 after auth} x sending role (client / server: different keys), keyed through the production
-activation path on the E2 bench; payload lengths 1..4*bs+8 through Packetizer.send_message
+activation path on the E2 bench.  The suite under measurement is the sender's OUTBOUND suite;
+its inbound direction is keyed too (NEWKEYS from the reference peer through
+Transport._parse_newkeys) with an independently chosen suite (RFC 4253 7.1 negotiates per
+direction: other MAC size, other style classic/ETM/GCM, other block size), and the generated
+part runs 0-2 earlier key exchanges (with messages) before the measured one.  Payload lengths 1..4*bs+8 through Packetizer.send_message
 and 0..4*bs+8 through Packetizer._build_packet (bs = max(8, cipher block)): padding depends on
 (length mod bs) only, so every residue of the formula is enumerated for every framing mode;
 the unencrypted initial state; plus hypothesis-generated lengths up to 70 000.
@@ -28,9 +32,13 @@ RULE = (
     "enumeration: all 72 cipher x MAC pairs x compression {none, zlib, zlib@openssh.com} x sender role, payload lengths "
     "1..4*bs+8 via send_message and 0..4*bs+8 via _build_packet (all residues mod bs for every framing mode; keys from "
     "generated K/H), the unencrypted state; plus hypothesis-generated length lists up to 70000 bytes on generated "
-    "suites. One case = one (suite, compression, role, api, length list). non-trivial = encrypted suite whose "
-    "uncompressed payload lengths cover all residues 0..bs-1 (enumeration) or contain a length > 4*bs+8 (random part); "
-    "distinct by SHA-1 of the case"
+    "suites. The sender is keyed in BOTH directions (outbound = suite under measurement, inbound = a different suite "
+    "derived from the run seed in the enumeration / drawn independently in the generated part: classes "
+    "asymmetric-suites, asymmetric-style:<c2s>/<s2c>, asymmetric-mac-size, asymmetric-block-size); the generated part "
+    "also runs 0-2 earlier key exchanges with their own per-direction suites and messages before the measured one "
+    "(class after-rekey:N). One case = one (keys, earlier exchanges, role, api, length list). non-trivial = encrypted "
+    "suite whose uncompressed payload lengths cover all residues 0..bs-1 (enumeration) or contain a length > 4*bs+8 "
+    "(random part); distinct by SHA-1 of the case"
 )
 
 
@@ -55,33 +63,110 @@ def _mac_len(cipher, mac):
     return 16 if R.CIPHERS[cipher][0] == "gcm" else R.MACS[mac][2]
 
 
+def _key_exchange(ctx, sender, ref, keys):
+    """One key exchange seen from the sender under test: names/K/H installed, NEWKEYS out
+    (outbound switch; the NEWKEYS packet itself is an outgoing packet under the previous keys
+    and must decode) and then the reference peer's NEWKEYS in (inbound switch through
+    Transport._parse_newkeys) - the order a real transport uses.  Returns None or a text."""
+    sender.install(keys)
+    ref.install(keys)
+    sender.send_newkeys()
+    ref.feed(b"".join(sender.drain()))
+    try:
+        got = ref.recv_newkeys()
+    except (R.RefError, EOFError) as e:
+        return "the sender's NEWKEYS packet does not decode under the previous keys: %r" % (e,)
+    if got != (pkt.MSG_NEWKEYS, b"") or ref.pending():
+        return "the sender's NEWKEYS arrived as %r (+%d bytes)" % (got, ref.pending())
+    ref.send_newkeys()
+    sender.feed(b"".join(ref.drain()))
+    try:
+        got = sender.recv_newkeys()
+        ok = got == (pkt.MSG_NEWKEYS, b"")
+    except Exception:
+        ok = False
+    if not ok:
+        # keying the inbound side is a precondition here (reading is C01's oracle): go on with
+        # the outbound side only and say so in the evidence
+        ctx.inconc("inbound-keying-of-the-sender-failed")
+    return None
+
+
 def execute(ctx, case):
-    """case = {"keys": keys|None, "role": "client"|"server", "comp": name, "api": "send"|"build",
-    "lengths": [...], "seed": int}.  keys None = unencrypted initial state."""
-    keys, role, api, lengths, seed = case["keys"], case["role"], case["api"], case["lengths"], case["seed"]
+    """case = {"keys": keys|None, "role": "client"|"server", "api": "send"|"build",
+    "lengths": [...], "seed": int[, "prev": [{"keys": keys, "lengths": [...]}, ...]]}.
+    keys None = unencrypted initial state; "prev" = earlier key exchanges (and the messages
+    sent under them, checked the same way) before the measured one."""
+    role, api, seed = case["role"], case["api"], case["seed"]
     dname = "c2s" if role == "client" else "s2c"
     other = "server" if role == "client" else "client"
     sender = pkt.PPeer(role)
     ref = pkt.RPeer(other)
+    prev = case.get("prev") or []
+    epochs = [(e["keys"], e["lengths"]) for e in prev] + [(case["keys"], case["lengths"])]
+    if any(k is not None and k[dname][2] == "zlib@openssh.com" for k, _ in epochs):
+        sender.auth()
+        ref.auth()
+    residues = set()
+    bad = None
+    short = None
+    for ei, (keys, lengths) in enumerate(epochs):
+        cipher = mac = None
+        comp = "none"
+        if keys is not None:
+            cipher, mac, comp = keys[dname]
+        bs = _bs(cipher)
+        fc = pkt.framing_class(cipher, mac) if cipher else "none"
+        compressed = comp != "none"
+        if keys is not None:
+            why = _key_exchange(ctx, sender, ref, keys)
+            if why:
+                bad = ("newkeys-packet", fc + ("+z" if compressed else ""), "key exchange %d: %s" % (ei, why))
+                short = dict(case, prev=prev[:ei], keys=keys, lengths=[])
+                break
+        last = ei == len(epochs) - 1
+        bad, i = _measure(sender, ref, keys, dname, api, lengths, seed + 1000 * (len(epochs) - 1 - ei), residues if last else set())
+        if bad:
+            # report the shortest prefix that still shows it (deterministic given the case)
+            short = dict(case, prev=prev[:ei], keys=keys, seed=seed + 1000 * (len(epochs) - 1 - ei))
+            short["lengths"] = lengths[: i + 1] if compressed else [lengths[i]]
+            break
+    sender.close()
+    keys, lengths = epochs[-1]
+    if case.get("enumerated"):
+        nontrivial = keys is not None and len(residues) == bs
+    else:
+        nontrivial = keys is not None and any(L > 4 * bs + 8 for L in lengths)
+    classes = ["api:" + api, "framing:" + fc, "role:" + role, "comp:" + comp]
+    if cipher:
+        classes += ["cipher:" + cipher, "mac:" + mac]
+    if keys is not None:
+        classes += pkt.asymmetry_classes(keys)
+        classes.append("sender-keyed-in-both-directions")
+    if prev:
+        classes.append("after-rekey:%d" % len(prev))
+        if any(pkt.suite_style(*a[dname][:2]) != pkt.suite_style(*b[dname][:2]) for (a, _), (b, _) in zip(epochs, epochs[1:])):
+            classes.append("rekey-changes-style")
+    ctx.case(case, nontrivial, classes)
+    if bad:
+        ctx.violation(bad[0], bad[1], short, bad[2])
+        return False
+    return True
+
+
+def _measure(sender, ref, keys, dname, api, lengths, seed, residues):
+    """Send ``lengths`` under the current keys and check every packet; returns (bad, index)."""
     cipher = mac = None
     comp = "none"
     if keys is not None:
         cipher, mac, comp = keys[dname]
-        if comp == "zlib@openssh.com":
-            sender.auth()
-            ref.auth()
-        sender.install(keys)
-        ref.install(keys)
-        sender.send_newkeys()
-        ref.feed(b"".join(sender.drain()))
-        ref.recv_newkeys()
     bs = _bs(cipher)
     fc = pkt.framing_class(cipher, mac) if cipher else "none"
     excl = _excluded(cipher, mac) if cipher else False
     want_mac = _mac_len(cipher, mac) if cipher else 0
     compressed = comp != "none"
-    residues = set()
     bad = None
+    i = 0
 
     def fail(clause, detail):
         return (clause, fc + ("+z" if compressed else ""), detail)
@@ -152,30 +237,23 @@ def execute(ctx, case):
             break
         if not compressed:
             residues.add(L % bs)
-    sender.close()
-    if case.get("enumerated"):
-        nontrivial = keys is not None and len(residues) == bs
-    else:
-        nontrivial = keys is not None and any(L > 4 * bs + 8 for L in lengths)
-    classes = ["api:" + api, "framing:" + fc, "role:" + role, "comp:" + comp]
-    if cipher:
-        classes += ["cipher:" + cipher, "mac:" + mac]
-    ctx.case(case, nontrivial, classes)
-    if bad:
-        # report the shortest prefix that still shows it (deterministic given the case)
-        short = dict(case)
-        short["lengths"] = lengths[: i + 1] if compressed else [lengths[i]]
-        ctx.violation(bad[0], bad[1], short, bad[2])
-        return False
-    return True
+    return bad, i
 
 
-def _enum_keys(seed, idx, cipher, mac, comp):
+def _enum_keys(seed, idx, role, cipher, mac, comp, work):
     """K/H for the enumerated part: derived from the run seed and the suite index (generated,
-    reproducible); K has its top bit set in every second suite."""
-    raw = hashlib.shake_256(b"c03-keys-%d-%d" % (seed, idx)).digest(64 + 32)
+    reproducible); K has its top bit set in every second suite.  The enumerated suite is the
+    sender's outbound direction; the other direction gets a different suite of the work list,
+    picked by the same hash (so over the 432 (suite, role) cases every style / MAC-size /
+    block-size relation between the two directions occurs)."""
+    raw = hashlib.shake_256(b"c03-keys-%d-%d-%s" % (seed, idx, role.encode())).digest(64 + 32 + 4)
     K = int.from_bytes(raw[:64], "big") >> (idx % 2)
-    return pkt.keys_dict(K | 1, raw[64:], pkt.KEX_HASHES[idx % 4], [cipher, mac, comp], [cipher, mac, comp])
+    j = int.from_bytes(raw[96:], "big") % len(work)
+    if work[j][:2] == (cipher, mac):
+        j = (j + 3) % len(work)  # next MAC of the same cipher
+    mine, other = [cipher, mac, comp], list(work[j])
+    c2s, s2c = (mine, other) if role == "client" else (other, mine)
+    return pkt.keys_dict(K | 1, raw[64:96], pkt.KEX_HASHES[idx % 4], c2s, s2c)
 
 
 def run(ctx):
@@ -193,8 +271,8 @@ def run(ctx):
             complete = False
             break
         bs = _bs(c)
-        keys = _enum_keys(ctx.seed, idx, c, m, z)
         for role in ("client", "server"):
+            keys = _enum_keys(ctx.seed, idx, role, c, m, z, work)
             for api, lo in (("send", 1), ("build", 0)):
                 case = {"keys": keys, "role": role, "api": api, "lengths": list(range(lo, 4 * bs + 9)), "seed": idx, "enumerated": True}
                 ok = execute(ctx, pkt.norm_case(case)) and ok
@@ -204,20 +282,37 @@ def run(ctx):
                 case = {"keys": None, "role": role, "api": api, "lengths": list(range(lo, 4 * 8 + 9)), "seed": 7, "enumerated": True}
                 ok = execute(ctx, pkt.norm_case(case)) and ok
     ctx.exhaustive = bool(complete and ok)
-    ctx.note("exhaustive_subdomain", "payload lengths 0/1..4*bs+8 (all residues mod bs) for all 72 cipher x MAC pairs x 3 compression settings x 2 roles x {send_message, _build_packet} + the unencrypted state")
+    ctx.note(
+        "exhaustive_subdomain",
+        "payload lengths 0/1..4*bs+8 (all residues mod bs) for all 72 cipher x MAC pairs x 3 compression settings x 2 roles x {send_message, _build_packet} "
+        "+ the unencrypted state; the sender's other direction is keyed with a different, seed-derived suite",
+    )
     ctx.assume("lengths near 2^32 are not materialised; the formula is exercised for every residue and concretely up to 70000 bytes")
-    # -- generated lengths
+    # -- generated lengths, independent suites per direction, 0-2 earlier key exchanges
     S = pkt.strategies()
     lens = st.lists(st.one_of(st.integers(1, 200), st.integers(1, 70000), st.integers(32700, 32800), st.integers(65500, 70000)), min_size=1, max_size=6)
-    strat = st.fixed_dictionaries(
-        {
-            "keys": S.keys().map(lambda k: dict(k, s2c=k["c2s"])),
-            "role": st.sampled_from(["client", "server"]),
-            "api": st.sampled_from(["send", "send", "build"]),
-            "lengths": lens,
-            "seed": st.integers(0, 1000),
-        }
-    ).map(pkt.norm_case)
+    few = st.lists(st.integers(1, 80), max_size=3)
+    earlier = st.lists(st.fixed_dictionaries({"keys": S.keys(), "lengths": few}), max_size=2)
+    earlier = st.one_of(st.just([]), earlier)
+
+    def distinct_h(case):
+        hs = [bytes(e["keys"]["H"]) for e in case["prev"]] + [bytes(case["keys"]["H"])]
+        return len(set(hs)) == len(hs)
+
+    strat = (
+        st.fixed_dictionaries(
+            {
+                "keys": S.keys(),
+                "prev": earlier,
+                "role": st.sampled_from(["client", "server"]),
+                "api": st.sampled_from(["send", "send", "build"]),
+                "lengths": lens,
+                "seed": st.integers(0, 1000),
+            }
+        )
+        .filter(distinct_h)
+        .map(pkt.norm_case)
+    )
     ctx.explore(strat, lambda case: execute(ctx, case), ctx.scale(400, 10000))
 
 
